@@ -96,6 +96,9 @@ class MonteCarlo(SensitivityAnalysis):
 
         self._results = pd.DataFrame(results)
 
+        # reset the system to its nominal state
+        self.tolerancing.reset()
+
     def view_histogram(self, kde=True):
         """
         Displays a histogram of the data.
